@@ -195,3 +195,21 @@ def frame_to_req(frame, svcs_by_sid):
     if svc.use_subfunction():
         return svc.__name__, frame[1] & 0x7F, frame[2:]
     return svc.__name__, None, frame[1:]
+
+
+def documented_defaults():
+    """{key: literal} for every configuration key whose default doc/source/udsoncan/client.rst states as "Default value of|is X" (read on every run; {} if the document is not there)"""
+    import os
+    from . import core
+    path = os.path.join(core.REPO, 'doc', 'source', 'udsoncan', 'client.rst')
+    out = {}
+    try:
+        text = open(path).read()
+    except OSError:
+        return out
+    for m in re.finditer(r'\.\. attribute:: (\w+)\n(.*?)(?=\n\.\. (?:attribute|_config|note|autoclass)|\Z)', text, re.S):
+        d = re.search(r'[Dd]efault value (?:of|is)\s*`*([^\s`,]+?)[.]?(?:\s|$)', m.group(2))
+        if d:
+            v = d.group(1)
+            out[m.group(1)] = {'True': True, 'False': False, 'None': None}.get(v, None) if v in ('True', 'False', 'None') else (float(v) if re.fullmatch(r'[0-9.]+', v) else v)
+    return out
